@@ -51,6 +51,7 @@ int kalign_run(struct msa *msa, int n_threads, int type, float gpo, float gpe, f
 {
         struct aln_tasks* tasks = NULL;
         struct aln_param* ap = NULL;
+        DECLARE_TIMER(t1);
         /* This also adds the ranks of the sequences !  */
         RUN(kalign_essential_input_check(msa, 0));
 
@@ -107,7 +108,6 @@ int kalign_run(struct msa *msa, int n_threads, int type, float gpo, float gpe, f
                            tgpe));
 
 
-        DECLARE_TIMER(t1);
         if(!msa->quiet){
                 LOG_MSG("Aligning");
         }
@@ -138,6 +138,7 @@ int kalign_run(struct msa *msa, int n_threads, int type, float gpo, float gpe, f
         free_tasks(tasks);
         return OK;
 ERROR:
+        DESTROY_TIMER(t1);
         aln_param_free(ap);
         free_tasks(tasks);
         return FAIL;
